@@ -40,6 +40,19 @@ pub fn snapshot(ex: &mut CommandExecutor) -> Snap {
     out
 }
 
+/// SPOP of one member takes whichever the set's hash order offers, so what is left differs from one execution of a
+/// run to the next and a replay would not retrace it: SPOP always asks for more members than a set here can hold (the
+/// reply order still varies, the state does not).
+fn no_random_choice(mut c: Cmd) -> Cmd {
+    let up = |a: &Vec<u8>| String::from_utf8_lossy(a).to_uppercase();
+    let at = if up(&c[0]) == "SPOP" { Some(0) } else if up(&c[0]) == "EVAL" && c.len() >= 5 && up(&c[3]) == "SPOP" { Some(3) } else { None };
+    if let Some(i) = at {
+        if c.len() == i + 2 { c.push(b"10".to_vec()); }
+        else if c.len() == i + 3 && std::str::from_utf8(&c[i + 2]).ok().and_then(|t| t.parse::<u64>().ok()).map(|n| n >= 1).unwrap_or(false) { c[i + 2] = b"10".to_vec(); }
+    }
+    c
+}
+
 fn extra_cmd(src: &mut Src, g: &mut GenCfg) -> Cmd {
     let b = |s: &str| s.as_bytes().to_vec();
     let k = g.key(src);
@@ -198,7 +211,7 @@ impl C17 {
                     5 => vec![bb("SMOVE"), ki, kj, bb("a")],
                     _ => vec![bb("MSETNX"), ki, bb("1"), kj, bb("2")],
                 }
-            } else if kind < 4 { gen_cmd(src, &mut g) } else { extra_cmd(src, &mut g) };
+            } else if kind < 4 { no_random_choice(gen_cmd(src, &mut g)) } else { no_random_choice(extra_cmd(src, &mut g)) };
             let a = if src.chance(1, 5) { [1u64, 999, 1000, 1500, 10_000, 100_000][adv as usize] } else { 0 };
             cmds.push((c, a));
         }
@@ -296,7 +309,7 @@ impl Property for C17 {
         let mut shown: Vec<String> = Vec::new();
         let mut fp = 0u64;
         for (kind, adv) in steps {
-            let c = if kind < 6 { gen_cmd(src, &mut g) } else { extra_cmd(src, &mut g) };
+            let c = no_random_choice(if kind < 6 { gen_cmd(src, &mut g) } else { extra_cmd(src, &mut g) });
             if src.chance(1, 4) { now += [1u64, 999, 1000, 1500, 10_000, 100_000][adv as usize]; }
             if readonly_clock { ex.update_time_readonly(VirtualTime::from_millis(now)); if src.chance(1, 5) { ex.evict_expired_direct(VirtualTime::from_millis(now)); } } else { ex.set_time(VirtualTime::from_millis(now)); }
             let parsed = parse_cmd(&c);
